@@ -97,6 +97,11 @@ def _lines(rng, tree):
                 elif o["mode"] == "required" or rng.random() < 0.5:
                     extra.append("--%s=%s" % (o["long"], pc.value_for(rng, o["type"], o["nullable"], True)))
             rng.shuffle(extra)
+            # options spelled like sub-commands of the reached command, not as the first option after the path
+            like = [o for o in (node["opts"] if node is not None else []) if o.get("named_like_sub")]
+            if like and rng.random() < 0.7:
+                first = ["--gflag"] if tree.get("global_flag") else []
+                extra = first + ["--" + rng.choice(like)["long"]] + extra
             toks += vals[:1] + extra + vals[1:] if rng.random() < 0.5 else extra + vals
         for _ in range(0 if valid else rng.randint(0, 3)):
             r = rng.random()
